@@ -4,7 +4,8 @@
     Rmcp.establish_session      -> establish
     Rmcp.send_and_receive_raw   -> request / requestN
     Rmcp.close_session          -> close
-    Rmcp._send_and_receive      -> txStep / rxStep (max_retries = 0, empty queue)
+    Rmcp._send_and_receive      -> hdrStep / tryLoop (packStep, rxStep) (empty queue, a peer that
+                                   answers a datagram at most once)
     ChannelAuthenticationCapabilities._from_response / get_max_auth_type -> chooseAuth
     Session.increment_sequence_number -> RmcpWire.incSeq (inside IpmiMsg.pack)
 
@@ -87,6 +88,7 @@ structure Cfg where
   emptyRx : EmptyRx
   rqSa : Nat := 0x81
   rsSa : Nat := 0x20
+  maxRetries : Nat := 0    -- `Rmcp(max_retries=…)`
   deriving Repr
 
 structure Client where
@@ -97,21 +99,33 @@ structure Client where
 
 def Client.fresh (pw : List Nat) : Client := ⟨false, ⟨authPassword, 0, 0, false, pw⟩, 0⟩
 
-/-- first half of `_send_and_receive`: bump the IPMB sequence, frame, wrap, hand to `sendto`.
-Returns the client afterwards, the header used and the datagram (or what `pack` raised). -/
+/-- first lines of `_send_and_receive`: bump the IPMB sequence number and build the request header
+(both happen once per request, before the retry loop) -/
+def hdrStep (cfg : Cfg) (c : Client) (netfn lun cmd : Nat) : Client × ReqHdr :=
+  let rqSeq := (c.rqSeq + 1) % 64
+  ({ c with rqSeq := rqSeq }, ⟨cfg.rsSa, netfn, lun, cfg.rqSa, rqSeq, 0, cmd⟩)
+
+/-- `_send_ipmi_msg(tx_data)`, called once per attempt: `IpmiMsg(self._session).pack` (which takes
+the next session sequence number when the session is activated), RMCP header, `sendto`.  Returns
+the client afterwards and the datagram (or what `pack` raised). -/
+def packStep (md5 : List Nat → List Nat) (c : Client) (sdu : List Nat) : Client × Outcome (List Nat) :=
+  let sess := if c.attached then some c.s else none
+  ({ c with s := match sessAfterPack sess with
+                 | some s' => s'
+                 | none => c.s },
+   sendIpmi md5 rmcpInitialSeq sess sdu)
+
+/-- header, framing and the first attempt's datagram -/
 def txStep (md5 : List Nat → List Nat) (cfg : Cfg) (c : Client) (netfn lun cmd : Nat) (data : List Nat) :
     Client × ReqHdr × Outcome (List Nat) :=
-  let rqSeq := (c.rqSeq + 1) % 64
-  let h : ReqHdr := ⟨cfg.rsSa, netfn, lun, cfg.rqSa, rqSeq, 0, cmd⟩
-  let sess := if c.attached then some c.s else none
-  let c' : Client := { c with rqSeq := rqSeq,
-                              s := match sessAfterPack sess with
-                                   | some s' => s'
-                                   | none => c.s }
-  (c', h, sendIpmi md5 rmcpInitialSeq sess (ipmbEncode h data))
+  let (c1, h) := hdrStep cfg c netfn lun cmd
+  let (c2, o) := packStep md5 c1 (ipmbEncode h data)
+  (c2, h, o)
 
-/-- second half: what one `recvfrom` result leads to (`none` = `socket.timeout`, with
-`max_retries = 0` that is a RetryError; so is a frame that fails `rx_filter`) -/
+/-- what the answer to one attempt leads to.  `none` = nothing arrives (`socket.timeout`): the
+attempt is over and, budget permitting, the request is sent again — `retryError` here.  A frame
+that fails `rx_filter` is dropped and the next `recvfrom` times out (the peer answers a datagram
+at most once), so it ends the attempt in the same way.  Everything else ends the request. -/
 def rxStep (cfg : Cfg) (h : ReqHdr) (reply : Option (List Nat)) : Outcome (List Nat) :=
   match reply with
   | none => .retryError
@@ -125,18 +139,30 @@ def rxStep (cfg : Cfg) (h : ReqHdr) (reply : Option (List Nat)) : Outcome (List 
       else if rxFilter h rx then .ok ((rx.drop 6).dropLast)
       else .retryError
 
+/-- the loop `while retry <= self.max_retries` of `_send_and_receive`, `tries` attempts left:
+every attempt wraps the message anew (`packStep`), so a retransmission is a new datagram with
+its own session sequence number and authentication code.  Returns the peer state, the client,
+the datagrams sent and the payload (or the exception). -/
+def tryLoop {σ : Type} (md5 : List Nat → List Nat) (peer : σ → List Nat → σ × Option (List Nat))
+    (cfg : Cfg) (h : ReqHdr) (sdu : List Nat) : Nat → σ → Client → σ × Client × List (List Nat) × Outcome (List Nat)
+  | 0, p, c => (p, c, [], .retryError)
+  | tries + 1, p, c =>
+    match packStep md5 c sdu with
+    | (c', .ok dgram) =>
+      let (p', reply) := peer p dgram
+      match rxStep cfg h reply with
+      | .retryError =>
+        let (p'', c'', ds, o) := tryLoop md5 peer cfg h sdu tries p' c'
+        (p'', c'', dgram :: ds, o)
+      | o => (p', c', [dgram], o)
+    | (c', e) => (p, c', [], e)
+
 /-- `_send_and_receive` against a peer: new peer state, client, datagrams sent, payload -/
 def exchange {σ : Type} (md5 : List Nat → List Nat) (peer : σ → List Nat → σ × Option (List Nat))
     (cfg : Cfg) (p : σ) (c : Client) (netfn lun cmd : Nat) (data : List Nat) :
     σ × Client × List (List Nat) × Outcome (List Nat) :=
-  match txStep md5 cfg c netfn lun cmd data with
-  | (c', h, .ok dgram) =>
-    let (p', reply) := peer p dgram
-    (p', c', [dgram], rxStep cfg h reply)
-  | (c', _, .decodingError) => (p, c', [], .decodingError)
-  | (c', _, .notSupported) => (p, c', [], .notSupported)
-  | (c', _, .pyError n) => (p, c', [], .pyError n)
-  | (c', _, _) => (p, c', [], .pyError "unreachable")
+  let (c1, h) := hdrStep cfg c netfn lun cmd
+  tryLoop md5 peer cfg h (ipmbEncode h data) (cfg.maxRetries + 1) p c1
 
 /-! ### message decoding (`decode_message` + `check_completion_code`) -/
 
@@ -307,6 +333,16 @@ def lifecycle {σ : Type} (md5 : List Nat → List Nat) (peer : σ → List Nat 
       ⟨r3.peer, r3.client, r1.sent ++ r2.sent ++ r3.sent, r3.outcome⟩
     | _ => ⟨r2.peer, r2.client, r1.sent ++ r2.sent, r2.outcome⟩
   | _ => r1
+
+/-- What a caller does when opening or using the session failed (`finally: session.close()` →
+`Rmcp.close_session()`, possible once the session object is attached): the outcome stays the
+failure, the datagrams of the close are appended. -/
+def cleanupClose {σ : Type} (md5 : List Nat → List Nat) (peer : σ → List Nat → σ × Option (List Nat))
+    (cfg : Cfg) (r : Result σ) : Result σ :=
+  if r.client.attached then
+    let r3 := close md5 peer cfg r.peer r.client
+    ⟨r3.peer, r3.client, r.sent ++ r3.sent, r.outcome⟩
+  else r
 
 /-- a peer that plays a fixed script of replies (`none` = silence), one per datagram -/
 def scripted : List (Option (List Nat)) → List Nat → List (Option (List Nat)) × Option (List Nat)
